@@ -452,7 +452,12 @@ func (n *node) AddChildren(ch ...Node) {
 
 func (n *node) AddWhenChildren(fromAugment bool, ch ...Node) {
 	for _, child := range ch {
-		child.(*node).fromAugment = fromAugment
+		// The statement is shared by all the nodes it is handed down to: the
+		// when of an augment stays one, also on its way through a uses
+		// that the augment contains.
+		if fromAugment {
+			child.(*node).fromAugment = true
+		}
 		// An augment inside a uses that is itself expanded inside an augment
 		// is applied more than once to the same (shared) child statement:
 		// the 'when' it hands down must still be there only once.
